@@ -449,6 +449,7 @@ fn run_task<const TIME: bool>(ctx: Arc<SS<Ctx<TIME>>>, t: usize) -> Pin<Box<dyn 
                     }
                     GRes::Unit
                 }
+                GOp::PollJoin(_) => unreachable!("not used by this family"),
                 GOp::IsFinished(ch) => {
                     let hs = c.handles.borrow();
                     let b = match hs[*ch].as_ref().expect("is_finished without handle") {
